@@ -118,6 +118,11 @@ func (w *World) absWhole(full []byte, from, to string) M {
 	case strings.HasPrefix(s, "?OTR Error:"):
 		return M{"t": "E"}
 	case strings.HasPrefix(s, "?OTR?") || strings.HasPrefix(s, "?OTRv"):
+		// a text the user typed that begins like a query: to the sender it is a text, to whoever
+		// receives it a query (q = the versions it names)
+		if id, tagged, tag := w.userText(full); id > 0 {
+			return M{"t": "P", "text": id, "tag": tag, "tagged": tagged, "q": parseQueryVersions(s)}
+		}
 		return M{"t": "Q", "vs": parseQueryVersions(s)}
 	case strings.HasPrefix(s, "?OTR|") || strings.HasPrefix(s, "?OTR,"):
 		return garbage("strayfragment", 0, 0, 0, 0, 0)
@@ -141,6 +146,30 @@ func (w *World) absWhole(full []byte, from, to string) M {
 	}
 	id, _ := w.Reg.TextID(full)
 	return M{"t": "P", "text": id, "tag": []int{}, "tagged": false}
+}
+
+// userText recognises a registered user text, with or without a trailing whitespace tag.
+func (w *World) userText(full []byte) (id int, tagged bool, tag []int) {
+	if id, _ := w.Reg.TextID(full); id > 0 {
+		return id, false, []int{}
+	}
+	if i := bytes.Index(full, wsHeader); i >= 0 {
+		rest := full[i+len(wsHeader):]
+		two, three := false, false
+		for len(rest) >= 8 && len(bytes.Trim(rest[:8], " \t")) == 0 {
+			if bytes.Equal(rest[:8], wsV2) {
+				two = true
+			} else if bytes.Equal(rest[:8], wsV3) {
+				three = true
+			}
+			rest = rest[8:]
+		}
+		txt := append(append([]byte{}, full[:i]...), rest...)
+		if id, _ := w.Reg.TextID(txt); id > 0 {
+			return id, true, versionsList(two, three)
+		}
+	}
+	return 0, false, nil
 }
 
 func parseQueryVersions(s string) []int {
